@@ -17,19 +17,19 @@ import (
 func init() { register("C12", runC12) }
 
 type a3 struct {
-	c       *Ctx
-	p       *Program
-	fns     []*ssa.Function
-	lab     map[ssa.Value]uint64 // dependence labels: bit0 = internal GOMAXPROCS source, bit k = k-th param/freevar of the enclosing function
-	parSrc  map[ssa.Value]bool   // parameter / free variable receives a really tainted value from some call site
-	cells   map[*ssa.Alloc]uint64 // local cells holding labelled values
-	perW    map[ssa.Value]bool  // addresses / slices selected by a tainted index (per-worker memory)
-	cut     map[*ssa.Phi]bool   // partition-loop induction variables (never tainted)
-	retL    map[*ssa.Function]uint64
-	sources []*ssa.Call
-	cd      map[*ssa.Function]*cdInfo
-	changed bool
-	rows    []*reviewRow
+	c        *Ctx
+	p        *Program
+	fns      []*ssa.Function
+	lab      map[ssa.Value]uint64  // dependence labels: bit0 = internal GOMAXPROCS source, bit k = k-th param/freevar of the enclosing function
+	parSrc   map[ssa.Value]bool    // parameter / free variable receives a really tainted value from some call site
+	cells    map[*ssa.Alloc]uint64 // local cells holding labelled values
+	perW     map[ssa.Value]bool    // addresses / slices selected by a tainted index (per-worker memory)
+	cut      map[*ssa.Phi]bool     // partition-loop induction variables (never tainted)
+	retL     map[*ssa.Function]uint64
+	sources  []*ssa.Call
+	cd       map[*ssa.Function]*cdInfo
+	changed  bool
+	rows     []*reviewRow
 	noExpand bool
 }
 
